@@ -120,4 +120,46 @@ PROPS = {
         trusted_base=LEAN_TB,
         assumptions=["valid configuration (Config.Valid); fixed-size: prefixes aligned modulo the size"],
     ),
+    "C03": dict(
+        level_text="Lean 4 theorems at the level of tilings (prior output = sequence O of keyed chunks, source = sequence N, any lengths, "
+                   "duplicates, overlaps, cycles): planner_sound (strip + reorder_ops is a safe plan: every reusable chunk copied exactly "
+                   "once from its first location to exactly its missing target offsets, no copy overwrites a still-needed chunk that was "
+                   "not copied or buffered - via the explicit-stack DFS invariant, with termination inside the model's fuel proved), "
+                   "executor_sound (executing any safe plan never fails and puts every reusable chunk in place), inplace_exact (reorder, "
+                   "then feeding the missing chunks in any order among any other chunks, then resize = the source). Tied to the code by "
+                   "differential runs of the real ChunkIndex::reorder_ops and CloneOutput::reorder_in_place on a logging in-memory file: "
+                   "all pairs of tilings of <=3 chunks over 3 ids x 6 size tables (<=4 over 4 x 5 tables thorough) + random layouts; the "
+                   "implementation's own plans are also judged by the independent safePlan specification and the final bytes by the source.",
+        level_note="Trusted: Lean kernel; tiling level: equal keys have equal content (the property's collision clause); that scanning any byte "
+                   "string yields a tiling is C09; HashMap iteration order is irrelevant where the model uses list order (sort by source "
+                   "offset; checked by correspondence).",
+        technique="Lean 4 proof (DFS invariant by induction over steps and trees, executor invariant over the plan, composition) + differential correspondence",
+        design_ref="DESIGN.md 5/C03",
+        module="Bita.Props.C03",
+        level="proof",
+        required_theorems=["planner_sound", "executor_sound", "inplace_exact"],
+        suites=dict(quick=[("l1", "c03")], thorough=[("l1", "c03")]),
+        rule="(sizes, prior tiling O, target tiling N) triples: exhaustive small scope + random perturbations (rotate/swap/drop/insert/"
+             "duplicate) up to 40 chunks over up to 24 ids; compared: strip statistics, the exact op list, the exact read/write log, the "
+             "file after reordering and the remaining index; oracles: safePlan(implementation ops) and final bytes == source",
+        trusted_base=LEAN_TB,
+        assumptions=["chunk sizes >= 1; equal keys (truncated hashes) mean equal bytes - otherwise a collision is exhibited"],
+    ),
+    "C13": dict(
+        level_text="Lean 4 theorems write_log_exact / write_log_exact_plain: for every prior tiling O, source N and feed sequence, every write "
+                   "of reordering + feeding is one source chunk's bytes at one of its source offsets, offsets are pairwise distinct, a location "
+                   "already holding the right chunk is never written, and no write ends beyond the source length. Tied to the code by the C03 "
+                   "correspondence (exact write logs compared) with a write-log oracle on the implementation.",
+        level_note="Trusted: as C03; observed at the AsyncWrite interface of an in-memory output (the CLI level is observed by C16/C05 runs).",
+        technique="Lean 4 proof (executor/feed write-log invariants) + differential correspondence of exact write logs",
+        design_ref="DESIGN.md 5/C13",
+        module="Bita.Props.C13",
+        level="proof",
+        required_theorems=["write_log_exact", "write_log_exact_plain"],
+        suites=dict(quick=[("l1", "c03")], thorough=[("l1", "c03")]),
+        rule="as C03; the write log of the real CloneOutput on a logging in-memory file is compared entry by entry with the model's and "
+             "judged by the C13 oracle (source chunk at its offset, once, not in place, within the source length)",
+        trusted_base=LEAN_TB,
+        assumptions=["as C03"],
+    ),
 }
